@@ -190,6 +190,8 @@ class Plan(object):
         """(nodes, expected member value or ABSENT)"""
         if e.multi:
             items = v if isinstance(v, list) else ([] if v is None else [v])
+            if items and e.nillable and items[0] is not None and self.rng.random() < 0.08:
+                items = [None] + list(items)         # a nil occurrence first
             out, exp = [], []
             for it in items:
                 x, t = self.single(e, it)
@@ -257,8 +259,11 @@ class Writer(object):
     character references, CDATA sections), comments, whitespace between
     elements and inside tags, empty-element tags, an optional Header."""
 
-    def __init__(self, rng, shadow=False, unprefixed_qname=False, ws_in_childless=False, plain=False):
+    def __init__(self, rng, shadow=False, unprefixed_qname=False, ws_in_childless=False, plain=False,
+                 capture=False):
         self.rng = rng
+        self.capture = capture      # re-declare an Envelope-level prefix on a leaf (unused there)
+        self.outer = {}             # prefix -> uri declared on the Envelope
         self.shadow = shadow
         self.unprefixed_qname = unprefixed_qname
         self.ws_in_childless = ws_in_childless
@@ -327,7 +332,7 @@ class Writer(object):
                 own[""] = uri
                 self.features.add("default-namespace")
                 return ""
-        if avail and rng.random() > (0.15 if not self.plain else 0.0):
+        if avail and rng.random() > (0.15 if not (self.plain or self.capture) else 0.0):
             p = rng.choice(avail)
             self.used_here.add(p)
             return p
@@ -425,7 +430,10 @@ class Writer(object):
         for (ans, an, av) in x.attrs:
             if isinstance(av, tuple):
                 _, turi, tlocal = av
-                if self.unprefixed_qname and self.lookup(merged, "") == turi and rng.random() < 0.7:
+                if (self.unprefixed_qname and turi != F.XSD and x.ns is not None and ":" in qname
+                        and self.lookup(merged, "") != turi and "" not in own and rng.random() < 0.7):
+                    own[""] = turi          # the type's namespace becomes the default one here
+                if self.unprefixed_qname and self.lookup(merged, "") == turi and rng.random() < 0.8:
                     self.features.add("unprefixed-qname")
                     val = tlocal
                 else:
@@ -441,6 +449,11 @@ class Writer(object):
             ats.append((name, val))
         if rng.random() < 0.5:
             rng.shuffle(ats)
+        if self.capture and not x.complex and not x.nil and rng.random() < 0.35:
+            cands = [p for p in self.outer if p not in own and p not in self.used_here and self.lookup(merged, p) == self.outer[p]]
+            if cands:
+                own[rng.choice(sorted(cands))] = "urn:unrelated:%d" % rng.randrange(3)
+                self.features.add("outer-prefix-redeclared-on-a-leaf")
         decls = []
         for p, u in own.items():
             decls.append(("xmlns:" + p if p else "xmlns", u))
@@ -474,7 +487,7 @@ class Writer(object):
         pre = {}
         # namespaces declared up front on the Envelope
         for uri in namespaces + [F.XSI, F.XSD]:
-            if rng.random() > self.p_local_decl:
+            if self.capture or rng.random() > self.p_local_decl:
                 pool = XSI_PREFIXES if uri == F.XSI else XS_POOL if uri == F.XSD else PREFIX_POOL
                 p = self.fresh_prefix([pre], uri, pool, pre)
                 pre[p] = uri
@@ -482,6 +495,7 @@ class Writer(object):
                     p2 = self.fresh_prefix([pre], uri, pool, pre)
                     pre[p2] = uri
                     self.features.add("two-prefixes-one-namespace")
+        self.outer = dict((p, u) for p, u in pre.items() if u in namespaces)
         body = XE(envns, "Body", kids=[wrapper])
         kids = [body]
         if rng.random() < 0.25:
@@ -702,6 +716,7 @@ PROFILES = [
     ("shadowing", 3, dict(shadow=True)),
     ("unprefixed-qname", 2, dict(unprefixed_qname=True)),
     ("pretty-empty", 1, dict(ws_in_childless=True)),
+    ("outer-prefix-redeclared", 2, dict(capture=True)),
 ]
 
 
